@@ -383,3 +383,96 @@ def realize(case):
             ev["exc"] = "%s: %s" % (type(ex).__name__, str(ex)[:160])
         events.append(ev)
     return {"id": case["id"], "events": events}
+
+
+def realize_mcmc(case):
+    """setup_mcmc on a lattice configuration: the pymc model's RV curve, its ln_likelihood deterministic, the observed node's
+    log-density and the initial point, evaluated at substituted lattice parameter values"""
+    import astropy.units as u
+    import pytensor
+    from thejoker import JokerSamples, TheJoker
+    import thejoker.units as xu
+    g, ua = case["g"], case["ua"]
+    events = [{"ev": "Cfg", "g": g, "ua": {k: v for k, v in ua.items()}}]
+    kms = u.km / u.s
+    N, L = g["N"], 1 + g["poly"] + g["noff"]
+    ev = {"ev": "Mcmc", "fam": "C11", "x": [[101 + k, 1] for k in range(L)], "curve": [], "lnlikeok": False, "initok": False, "kf": "",
+          "obsok": False, "freeok": False}
+    try:
+        data, prior, target, decoy, order, slot_names = build(g, ua, case.get("jitter_kind", "sampled"))
+        ratio = (1 * kms).to_value(U(ua["data"]))
+        pos = {n: r for r, n in enumerate(order)}
+        perm = [pos[n] for n in range(N)]
+        names = ["K"] + slot_names
+        nrows = case.get("nrows", 1)
+        smp = JokerSamples(poly_trend=g["poly"], n_offsets=g["noff"])
+        # several rows: the target is the median-period member (periods P*(1 +- small)), others differ in every column
+        mult = [1.0] if nrows == 1 else [1.0 + 0.01 * (j - nrows // 2) for j in range(nrows)]
+        tP = np.atleast_1d(target["P"].value)[0]
+        smp["P"] = np.array([tP * m for m in mult]) * target["P"].unit
+        for k in ("e", "omega", "M0", "s"):
+            v = np.atleast_1d(target[k].value)[0]
+            smp[k] = np.array([v if m == 1.0 else v * 0.5 + 0.1 for m in mult]) * (target[k].unit if hasattr(target[k], "unit") else 1)
+        for kx, nm in enumerate(names):
+            power = int(nm[1:]) if nm.startswith("v") and not nm.startswith("dv") else 0
+            col = np.array([(101.0 + kx) if m == 1.0 else 7.0 for m in mult]) * kms / u.day ** power
+            su = U(ua["kprior"]) if nm == "K" else U(ua["lin"][kx - 1])
+            smp[nm] = col.to(su / U(ua["slope_t"]) ** power if power else su)
+        order_rows = list(range(nrows))
+        if nrows > 1 and case.get("shuffle_rows"):
+            import random as _r
+            _r.Random(case.get("seed", 0)).shuffle(order_rows)
+            smp = smp[np.array(order_rows)]
+        joker = TheJoker(prior)
+        from thejoker.data_helpers import validate_prepare_data
+        merged = validate_prepare_data(data, g["poly"], g["noff"])[0]
+        with prior.model:
+            init = joker.setup_mcmc(data, smp)
+        m = prior.model
+        p = prior.pars
+        # initial point: the chosen sample in the PRIOR's units
+        tgt = {}
+        for k in ("P", "e", "omega", "M0", "s"):
+            tgt[k] = target[k]
+        ok = True
+        for nm in prior.par_names:
+            unit = getattr(p[nm], xu.UNIT_ATTR_NAME)
+            if nm in tgt:
+                want = np.atleast_1d(tgt[nm].to_value(unit) if hasattr(tgt[nm], "to_value") else tgt[nm])[0]
+            else:
+                kx = names.index(nm)
+                power = int(nm[1:]) if nm.startswith("v") and not nm.startswith("dv") else 0
+                want = ((101.0 + kx) * kms / u.day ** power).to_value(unit)
+            got = float(np.asarray(init[nm]))
+            if abs(got - want) > 1e-9 * max(1.0, abs(want)):
+                ok = False
+                ev["init_mismatch"] = [nm, got, float(want)]
+        ev["initok"] = bool(ok and set(init.keys()) >= set(prior.par_names))
+        ev["freeok"] = bool(all(any(v is p[nm] for v in m.free_RVs) or nm == "s" and case.get("jitter_kind") != "sampled"
+                                for nm in prior.par_names))
+        inputs = [p[nm] for nm in prior.par_names]
+        import pymc as pm
+        f = pytensor.function(inputs, [m["model_rv"], m["ln_likelihood"], pm.logp(m["obs"], m.rvs_to_values[m["obs"]] if False else np.asarray(merged.rv.value)).sum()],
+                              on_unused_input="ignore")
+        args = [np.float64(np.asarray(init[nm])) for nm in prior.par_names]
+        rv, lnl, obslp = f(*args)
+        rv_phys = np.asarray(rv, dtype=float) / ratio
+        ev["curve"] = [rmat(rv_phys)[perm[n]] for n in range(N)]
+        x = np.array([101.0 + k for k in range(L)])
+        if all(c[1] > 0 for c in ev["curve"]):
+            cur = np.array([c[0] / c[1] for c in ev["curve"]])
+            var = np.array(g["sig2"], dtype=float) + g["s2"]
+            y = np.array(g["y"], dtype=float)
+            want = float(np.sum(-0.5 * (np.log(2 * np.pi * var) + (y - cur) ** 2 / var))) - N * math.log(ratio)
+            ev["lnlikeok"] = bool(abs(float(lnl) - want) <= 1e-7 + 1e-9 * abs(want))
+            ev["obsok"] = bool(abs(float(obslp) - want) <= 1e-7 + 1e-9 * abs(want))
+            ev["lnl"] = [float(lnl), float(obslp), want]
+            # known deviation: the deterministic is the un-jittered Gaussian sum
+            var0 = np.array(g["sig2"], dtype=float)
+            want0 = float(np.sum(-0.5 * (np.log(2 * np.pi * var0) + (y - cur) ** 2 / var0))) - N * math.log(ratio)
+            if not ev["lnlikeok"] and g["s2"] > 0 and abs(float(lnl) - want0) <= 1e-7 + 1e-9 * abs(want0):
+                ev["kf"] = "KF_McmcLnLikeNoJitter"
+    except Exception as ex:
+        ev["exc"] = "%s: %s" % (type(ex).__name__, str(ex)[:200])
+    events.append(ev)
+    return {"id": case["id"], "events": events}
